@@ -17,6 +17,7 @@ from pathlib import Path
 
 from . import env  # noqa: F401
 from .core import (
+    OUT_ROOT,
     VERIF,
     HarnessError,
     canon,
@@ -125,7 +126,8 @@ def write_evidence(check, tier, seed, merged, wall, violations, known_hits, extr
         "wall_s": round(wall, 2),
         "violations": violations,
     }
-    path = VERIF / "evidence" / f"{check.pid}.json"
+    path = OUT_ROOT / "evidence" / f"{check.pid}.json"
+    path.parent.mkdir(parents=True, exist_ok=True)
     path.parent.mkdir(exist_ok=True)
     path.write_text(json.dumps(evidence, indent=1, default=str))
     return path
